@@ -587,8 +587,14 @@ def check_append_path(evs, v):
         probs.append("terminated string: NUL terminator must be written at [counter] right after the increment")
     if not want_term and len(ws) != 1:
         probs.append("unterminated/raw output: exactly one write expected")
-    if any(e.kind not in ("WRITE", "COUNTER_OF", "RAWVIEW") for e in body):
+    if any(e.kind not in ("WRITE", "COUNTER_OF", "RAWVIEW", "APPEND_SPLIT") for e in body):
         probs.append(f"unexpected statements in the append arm: {[e.kind for e in body]}")
+    # two-statement append (store at the current length, then count): the count must precede the terminator, which is written at the NEW length
+    split = [i for i, e in enumerate(body) if e.kind == "APPEND_SPLIT"]
+    if split and terms and body.index(terms[0]) < split[0]:
+        probs.append("the terminator is written before the length is counted: it lands on the byte just appended")
+    if len(split) > 1 or (split and out_expr_of(body[split[0]].a) != OUT):
+        probs.append("the length of the output is counted more than once / another output's length is counted")
     # nothing but an optional on-demand allocation precedes the guard
     pre = evs[:g]
     if any(e.kind not in ("NULLGUARD", "MALLOC") for e in pre):
